@@ -2,7 +2,7 @@
    of Model/Variation.v run on the recorded oracle tape, and the exact-rational gen_vector
    compared with the implementation's floats under the tolerance carried by the case. *)
 From Coq Require Import List ZArith QArith Qabs Bool Floats.
-From Artap Require Export Base.Ord Base.FloatInst Model.Variation.
+From Artap Require Export Base.Ord Base.FloatInst Model.Variation Model.VariationRun.
 Import ListNotations.
 
 Local Open Scope float_scope.
@@ -86,3 +86,48 @@ Definition c08_gen_run (c : gen_case) : nat :=
   | None => 1%nat
   | Some v => if qclose v (g_impl c) (g_tol c) then 0%nat else 2%nat
   end.
+
+(* ---------------------------------------------------------------------------------------------------------
+   Run level: Model/VariationRun.v at binary64.  A case is a whole short run: the initial designs, the
+   re-rolls of the initial evaluation and one script per generation; the observation is every vector the
+   objective saw, in order, and the final population (and archive, eps-MOEA). *)
+Definition fclose (a b : float) : bool := fltb (abs (a - b)) 0x1.b7cdfd9d7bdbbp-34.    (* abs(a - b) < 1e-10 *)
+
+Inductive algo := ANsga2 | AEpsMoea | AOmopso | ASmpso | APsoga.
+
+Record run_case := { r_algo : algo; r_N : nat; r_pc : float; r_pm : float; r_params : list (float * float);
+                     r_pop0 : list (list float); r_rr0 : list (list (list float)); r_arch0 : list nat;
+                     r_scripts : list (script (T:=float)) }.
+
+Definition run_obs := option (list (list float) * list (list float) * list (list float)).
+
+Definition c08_run_run (c : run_case) : run_obs :=
+  let plain (r : option (list (list float) * list (list float))) : run_obs :=
+      match r with Some (sub, pop) => Some (sub, pop, []) | None => None end in
+  match r_algo c with
+  | ANsga2 => plain (run_nsga2 fltb ffar HALF fclose (r_params c) (r_N c) (r_pc c) (r_pm c) (r_pop0 c) (r_rr0 c) (r_scripts c))
+  | AEpsMoea =>
+      match run_epsmoea fltb ffar HALF fclose (r_params c) (r_N c) (r_pc c) (r_pm c) (r_arch0 c) (r_pop0 c) (r_rr0 c) (r_scripts c) with
+      | Some (sub, (pop, arch)) => Some (sub, pop, arch)
+      | None => None
+      end
+  | AOmopso => plain (run_omopso fltb PrimFloat.add fflip (r_params c) (r_pm c) (r_pop0 c) (r_rr0 c) (r_scripts c))
+  | ASmpso => plain (run_smpso fltb PrimFloat.add fdamp (r_params c) (r_pm c) (r_pop0 c) (r_rr0 c) (r_scripts c))
+  | APsoga => plain (run_psoga fltb ffar HALF PrimFloat.add fflip (r_params c) (r_pc c) (r_pm c) (r_pop0 c) (r_rr0 c) (r_scripts c))
+  end.
+
+Fixpoint fll_eqb (a b : list (list float)) : bool :=
+  match a, b with
+  | [], [] => true
+  | x :: a', y :: b' => flist_eqb x y && fll_eqb a' b'
+  | _, _ => false
+  end.
+
+Definition run_obs_eqb (a b : run_obs) : bool :=
+  match a, b with
+  | None, None => true
+  | Some (s1, p1, a1), Some (s2, p2, a2) => fll_eqb s1 s2 && fll_eqb p1 p2 && fll_eqb a1 a2
+  | _, _ => false
+  end.
+
+Definition mk_breed (i1 i2 : nat) (t m1 m2 : list (entry (T:=float))) : breed (T:=float) := Build_breed i1 i2 t m1 m2.
